@@ -116,6 +116,18 @@ class Elab:
             return "TChapman (%s, %s, %s, %s, %s, %s, %s)" % (
                 mn, mx, o, ml(m.get("thermal conductivity", 2.5)), ml(m.get("heat generation per unit volume", 1.e-6)),
                 ml(m.get("top heat flux", 0.055)), ml(m.get("top temperature", 293.15)))
+        if k in ("half space model", "plate model") and isinstance(m.get("spreading velocity", 0.05), (int, float)):
+            dtr = PI / 180.0 if self.spherical else 1.0
+            ridges = [[(p[0] * dtr, p[1] * dtr) for p in ridge] for ridge in m["ridge coordinates"]]
+            sv = float(m.get("spreading velocity", 0.05))
+            return "%s (%s, %s, %s, %s, %s, %s, %s)" % (
+                "THalfSpace" if k == "half space model" else "TPlateModel", mn, mx, o,
+                ml(m.get("top temperature", 293.15)), ml(m.get("bottom temperature", -1)),
+                mlist([mlist([mpt(p) for p in ridge]) for ridge in ridges]),
+                mlist([mlist([ml(sv) for _ in ridge]) for ridge in ridges]))
+        if k == "plate model constant age":
+            return "TPlateConstAge (%s, %s, %s, %s, %s, %s)" % (
+                mn, mx, o, ml(m.get("top temperature", 293.15)), ml(m.get("bottom temperature", -1)), ml(m.get("plate age", 80e3) * 31557600))
         self.unsupported = "temperature model " + k
         return "TUniform (%s, %s, OReplace, 0.0)" % (mn, mx)
 
@@ -353,9 +365,30 @@ class Gen:
     def op(self, comp=False):
         return self.r.choice(["replace", "add", "subtract"] + (["replace defined only"] if comp else []))
 
-    def temp_model(self, kind, dmin, dmax, allow=("uniform", "linear", "adiabatic", "chapman")):
+    def ridges(self, centre, spherical):
+        """1-3 mid-oceanic ridges (each a polyline) near the feature, separated by transform faults"""
+        r = self.r
+        cx, cy = centre
+        scale = 10.0 if spherical else 3e5
+        n = r.choice([1, 1, 2, 3])
+        out = []
+        x = cx + r.uniform(-1.5, 1.5) * scale
+        y = cy - 2.0 * scale
+        for i in range(n):
+            npts = r.choice([2, 2, 3])
+            pts = []
+            for _ in range(npts):
+                pts.append([round(x + r.uniform(-0.1, 0.1) * scale, 3), round(y, 3)])
+                y += r.uniform(0.8, 2.0) * scale
+            out.append(pts)
+            x += r.choice([-1, 1]) * r.uniform(0.3, 1.0) * scale      # offset along a transform fault
+        return out
+
+    def temp_model(self, kind, dmin, dmax, allow=("uniform", "linear", "adiabatic", "chapman"), centre=None, spherical=False):
         r = self.r
         opts = [k for k in allow if k != "chapman" or kind == "continental plate"]
+        if kind == "oceanic plate" and centre is not None and "linear" in allow:
+            opts = opts + ["half space model", "plate model", "plate model constant age"]
         k = r.choice(opts)
         m = {"model": k}
         if r.random() < 0.5:
@@ -377,6 +410,16 @@ class Gen:
                 m["thermal expansion coefficient"] = self.num(1e-5, 5e-5, 7)
             if r.random() < 0.3:
                 m["specific heat"] = self.num(800, 1500, 1)
+        elif k in ("half space model", "plate model", "plate model constant age"):
+            m["max depth"] = self.num(max(dmin + 2e4, 6e4), max(dmax, 1.2e5), 0)
+            m["top temperature"] = self.num(250, 400, 1)
+            if r.random() < 0.7:
+                m["bottom temperature"] = r.choice([self.num(1400, 1900, 1), -1])
+            if k == "plate model constant age":
+                m["plate age"] = r.choice([self.num(1e3, 2e8, 0), 80e3])
+            else:
+                m["spreading velocity"] = self.num(0.005, 0.15, 4)
+                m["ridge coordinates"] = self.ridges(centre, spherical)
         elif k == "chapman":
             if r.random() < 0.6:
                 m["top temperature"] = r.choice([self.num(250, 400, 1), -1])
@@ -486,7 +529,7 @@ class Gen:
             f["max depth"] = dmax
         else:
             dmax = 4e5
-        f["temperature models"] = [self.temp_model(kind, dmin, dmax, temp_allow) for _ in range(r.choice([0, 1, 1, 2, 3]))]
+        f["temperature models"] = [self.temp_model(kind, dmin, dmax, temp_allow, centre=(cx, cy), spherical=spherical) for _ in range(r.choice([0, 1, 1, 2, 3]))]
         f["composition models"] = [self.comp_model(dmin, dmax) for _ in range(r.choice([0, 1, 1, 2, 3]))]
         if r.random() < 0.6:
             f["velocity models"] = [self.vel_model(dmin, dmax) for _ in range(r.choice([1, 1, 2]))]
